@@ -83,6 +83,20 @@ Section LleSpec.
 End LleSpec.
 
 (* ---------------------------------------------------------------------- *)
+(*  "k from the minimum the method needs" (quantifier of C08): the number  *)
+(*  of neighbours below which the local problem of the method is not       *)
+(*  defined.  KLLE: one neighbour (the API asks for 3).  KLTSA: d non-zero *)
+(*  eigenvalues of a centred k x k Gram matrix (rank <= k-1) need          *)
+(*  k >= d + 1.  HLLE: the local Hessian estimator has 1 + d + d(d+1)/2    *)
+(*  columns, which must be linearly independent vectors of length k        *)
+(*  (Properties_C08.C08_hlle_small_k_refuted shows what happens below).    *)
+(*  The library itself only checks 3 <= k < N and d <= k.                  *)
+(* ---------------------------------------------------------------------- *)
+Definition lle_min_k : nat := 1.
+Definition ltsa_min_k (d : nat) : nat := d + 1.
+Definition hlle_min_k (d : nat) : nat := 1 + d + d * (d + 1) / 2.
+
+(* ---------------------------------------------------------------------- *)
 (*  Decision procedures over Qc (run on rational images of the doubles     *)
 (*  the implementation returned; `tol` is the declared tolerance)          *)
 (* ---------------------------------------------------------------------- *)
